@@ -582,7 +582,8 @@ def step(d, M, seen, op, rec, clauses, case_of):
             dirty = True
             if "C06" in clauses:
                 rec.violation(o, "receiver-changed", case_of(op), f"receiver changed by a method documented as returning a new object")
-        if "C06" in clauses and isinstance(out, di.DataFrame):
+        # copy() is documented as shallow, and DataFrame(frame) is what it calls
+        if "C06" in clauses and isinstance(out, di.DataFrame) and o not in ("copy", "ctor"):
             msg = shares(out, [d] + operands)
             if msg:
                 rec.violation(o, "shares-memory", case_of(op), msg)
